@@ -45,3 +45,24 @@ Definition conn_cert_chk (n : nat) (edges : list (nat * nat)) (parent depth : li
 (* symmetric storage: every stored (u,v) has (v,u) stored *)
 Definition sym_chk (edges : list (nat * nat)) : bool :=
   forallb (fun p => has_edge edges (snd p) (fst p)) edges.
+
+(* ---- the alternating loop of graph_utils.find_component_connection_edge (after the repair) ----
+       stalled = 0
+       while (changed[0] or changed[1]) and stalled < 2:
+           previous_best = best_dist
+           ... one restricted search; every distance found that is < best_dist replaces it ...
+           stalled = 0 if best_dist < previous_best else stalled + 1
+           ... changed[.] updated from the candidate sets ...
+   The searches and the candidate-set bookkeeping are an ORACLE: step i finds the distances
+   [fst (oracle i)] and leaves the loop condition (changed[0] or changed[1]) at [snd (oracle i)].
+   Result: Some (best distance, number of searches) or None when the fuel runs out. *)
+Fixpoint alt_loop (oracle : nat -> list Z * bool) (fuel : nat) (i : nat) (best : Z) (stalled : nat) (changed : bool)
+  : option (Z * nat) :=
+  if negb changed || Nat.leb 2 stalled then Some (best, i)
+  else match fuel with
+       | O => None
+       | S f =>
+         let '(ds, ch') := oracle i in
+         let best' := fold_left Z.min ds best in
+         alt_loop oracle f (S i) best' (if best' <? best then O else S stalled) ch'
+       end.
